@@ -313,13 +313,24 @@ def replay(ctx, rep):
         replay_history(ctx, hist, log, c.get('key', 'tz1'), c.get('mempool_key', 'applied'))
     elif 'trace' in c:
         validate_traces(ctx, [c['trace']])
-    for m in ctx.mismatches:
-        print('REPRODUCED', m.signature, m.detail)
-    return 1 if ctx.mismatches else 0
+    return report_replay(ctx, rep)
 
 
 def _tup(v):
     return tuple(_tup(x) for x in v) if isinstance(v, list) else v
+
+
+
+def report_replay(ctx, rep):
+    """exit 1 iff the saved disagreement (same signature) shows again."""
+    hits = [m for m in ctx.mismatches if m.signature == rep.get('signature')]
+    for m in hits:
+        print('REPRODUCED', m.signature, m.detail)
+    for sig in sorted(set(m.signature for m in ctx.mismatches if m not in hits)):
+        print('NOT-THE-SAVED-CASE: this run shows', sig)
+    if not hits:
+        print('not reproduced:', rep.get('signature'))
+    return 1 if hits else 0
 
 
 META = {
